@@ -572,13 +572,13 @@ fn regex_families(rng: &mut Rng, scale: u64, add: &mut dyn FnMut(&'static str, V
     ("a\\", vec!["a", "a\\"]),
   ];
   let flag_sets = ["\"i\"", "\"s\"", "\"m\"", "\"x\"", "\"is\"", "\"mx\"", "\"smix\"", "\"\""];
-  let repls = ["#", "", "[$0]", "<$1>", "$2$1", "X Y"];
+  let repls = ["#", "", "[$0]", "<$1>", "$2$1", "X Y", "[$0x]", "$0_$1y", "$0é$0"];
   for (p, inputs) in &fixed {
     for s in inputs {
       let (ls, lp) = (lit_str(s), lit_str(p));
       add("matches", vec![ls.clone(), lp.clone()], "regex-rx-fixed");
       add("split", vec![ls.clone(), lp.clone()], "regex-rx-fixed");
-      for r in ["#", "[$0]", "<$1>"] {
+      for r in ["#", "[$0]", "<$1>", "[$0x]", "$1_$0A"] {
         add("replace", vec![ls.clone(), lp.clone(), lit_str(r)], "regex-rx-fixed");
       }
       for fl in ["\"i\"", "\"x\"", "\"sm\""] {
@@ -745,7 +745,7 @@ fn generate(rng: &mut Rng, thorough: bool) -> Vec<Call> {
       // literal patterns only (the model and the specification cover nothing else)
       add("matches", vec![lit_str(s), lit_str(m)], "regex-literal");
       add("split", vec![lit_str(s), lit_str(m)], "regex-literal");
-      for r in ["", "X", "xy", "$1", "[$0]", "$$", "$12a", "$a", " "] {
+      for r in ["", "X", "xy", "$1", "[$0]", "$$", "$12a", "$a", " ", "[$0x]", "$0_", "$0a$0", "$1x", "$00", "$01"] {
         add("replace", vec![lit_str(s), lit_str(m), lit_str(r)], "regex-literal");
       }
       for fl in ["\"\"", "\"q\"", "\"i\"", "\"sm\"", "\"qi\"", "\"qx\"", "null"] {
@@ -1665,7 +1665,19 @@ pub fn run(cfg: &Cfg) -> Report {
         if let Impl::Val(v) = imp {
           if !want.is(v) {
             let trimmed = matches!((&want, v), (Want::Str(w), Value::String(g)) if w.trim() == g.as_str());
-            let sig = if trimmed { "replace: the result is trimmed" } else { sig };
+            // `$0` directly followed by a letter, a digit-free name character: the whole match, then that character
+            let group0_name = bif == "replace"
+              && d.call.args.get(2).and_then(|r| unlit(r)).map_or(false, |r| {
+                let cs: Vec<char> = r.chars().collect();
+                cs.windows(3).any(|w| w[0] == '$' && w[1] == '0' && (w[2].is_ascii_alphabetic() || w[2] == '_'))
+              });
+            let sig = if trimmed {
+              "replace: the result is trimmed"
+            } else if group0_name {
+              "replace: $0 followed by a name character is replaced by nothing"
+            } else {
+              sig
+            };
             rep.disagree(Kind::ImplVsSpec, "regex-oracle", sig, &inp, &show_impl(imp), &want.show());
           }
         }
@@ -1718,6 +1730,62 @@ pub fn run(cfg: &Cfg) -> Report {
           &format!("named {}", b),
           &format!("positional {}", a),
         );
+      }
+    }
+  }
+  // ---- a parameter name the built-in does not have: outside the domain (null), as a surplus positional argument is
+  // and as a user-defined function answers an unknown name.  Every built-in of the property that has a named
+  // form × every kind of surplus name (a name no built-in has, a parameter name of other built-ins, the
+  // built-in's own first parameter in another letter case, a name with a space), in the first, a middle and the
+  // last place, over calls whose named form gives a value.
+  {
+    let mut per_bif: HashMap<&'static str, u64> = HashMap::new();
+    for d in &done {
+      let (names, _) = match signature(d.call.bif) {
+        Some(s) => s,
+        None => continue,
+      };
+      if !matches!(&d.named, Some(Impl::Val(v)) if !matches!(v, Value::Null(_))) {
+        continue;
+      }
+      let k = per_bif.entry(d.call.bif).or_insert(0);
+      if *k >= 48 {
+        continue;
+      }
+      *k += 1;
+      let other = ["flags", "scale", "position", "list", "string", "n"].iter().find(|n| !names.contains(n)).copied().unwrap_or("scale");
+      let own_other_case = names[0].to_uppercase();
+      let surplus = match *k % 4 {
+        0 => "foo".to_string(),
+        1 => other.to_string(),
+        2 => own_other_case,
+        _ => "new item".to_string(),
+      };
+      let mut parts: Vec<String> = names.iter().zip(d.call.args.iter()).map(|(n, a)| format!("{}: {}", n, a)).collect();
+      let at = match (*k / 4) % 3 {
+        0 => parts.len(),
+        1 => 0,
+        _ => parts.len() / 2,
+      };
+      parts.insert(at, format!("{}: {}", surplus, if *k % 2 == 0 { "1" } else { "null" }));
+      let t = format!("{}({})", d.call.bif, parts.join(", "));
+      let r = run_impl(&scope, &t);
+      rep.case(&t, true);
+      rep.hit("family:named-surplus");
+      match &r {
+        Impl::Val(Value::Null(_)) => rep.hit("named-surplus:null"),
+        Impl::Val(_) => {
+          rep.hit("named-surplus:value");
+          rep.disagree(
+            Kind::ImplVsSpec,
+            "named-surplus",
+            "named invocation ignores a parameter name the built-in does not have",
+            &input_of(&d.call, &t),
+            &show_impl(&r),
+            "null",
+          );
+        }
+        Impl::Panic(m) => rep.disagree(Kind::ImplVsSpec, "no_panic", &format!("panic in {} ({})", d.call.bif, m), &input_of(&d.call, &t), &format!("panic: {}", m), "a value (null outside the domain)"),
       }
     }
   }
@@ -2415,9 +2483,9 @@ pub mod rx {
           if !d.is_ascii_digit() {
             return None;
           }
-          // more digits, or `$0` followed by a name character: the notations differ
+          // more digits: the notations differ (`$0` followed by a letter is the whole match and the letter)
           if let Some(n) = cs.get(i + 2) {
-            if n.is_ascii_digit() || (d == '0' && (n.is_alphanumeric() || *n == '_')) {
+            if n.is_ascii_digit() {
               return None;
             }
           }
